@@ -627,6 +627,22 @@ def root_types(c):
     return out
 
 
+def visitor_root_types(c):
+    """root_types as the PINNED visitor computes them: an n-ary AND/OR is built from
+    its first two operands and the others are appended without updating the
+    set.  Returns the set, or None when a constructor would raise ValueError."""
+    t = c[0]
+    if t == "atom":
+        return {c[1]}
+    sets = [visitor_root_types(x) for x in c[1]]
+    if any(s is None for s in sets):
+        return None
+    if len(sets) == 1:
+        return sets[0]
+    out = (sets[0] & sets[1]) if t == "and" else (sets[0] | sets[1])
+    return out or None
+
+
 def respell_prim(rng, k):
     """another literal with the same denotation"""
     t = k[0]
@@ -844,6 +860,130 @@ def flat_node(op, kids):
     return (op, out)
 
 
+DEMANDED_RULES = ("c-commute", "c-associate", "c-idempotent", "c-absorb-or", "c-absorb-and", "c-distribute", "set-order",
+                  "numeric", "o-commute", "o-associate", "o-idempotent-or", "o-absorb-and", "o-absorb-fby-left",
+                  "o-absorb-fby-right", "o-distribute-and", "o-distribute-fby-right", "o-distribute-fby-left")
+
+
+def rule_instance(rng, name=None):
+    """One instance (name, lhs, rhs, a) of a rewrite the property lists, applied
+    at the ROOT of a pattern with generated sub-expressions for its
+    metavariables (a is the first metavariable)."""
+    g = Gen(rng, 2)
+    name = name or rng.choice(DEMANDED_RULES)
+
+    def osub():
+        for _ in range(30):
+            e = normalize_shape(g.oexpr(rng.choice([0, 0, 0, 1, 1, 2])))
+            if not leaf_qualifier_clash(e) and size(e) <= 25 and not too_costly(e, 6, 40):
+                return e
+        return ("obs", g.atom("a"))
+
+    if name.startswith("o-"):
+        a, b, c = osub(), osub(), osub()
+        if name == "o-commute":
+            op = rng.choice(["oand", "oor"])
+            kids = [a, b, c][:rng.choice([2, 3])]
+            k2 = kids[:]
+            while k2 == kids:
+                rng.shuffle(k2)
+                if all(x == kids[0] for x in kids):
+                    break
+            return name, (op, kids), (op, k2), a
+        if name == "o-associate":
+            op = rng.choice(["oand", "oor"])
+            forms = [(op, [a, (op, [b, c])]), (op, [(op, [a, b]), c]), (op, [a, b, c])]
+            l, r = rng.sample(forms, 2)
+            return name, l, r, a
+        if name == "o-idempotent-or":
+            if rng.random() < 0.5:
+                return name, ("oor", [a, a]), a, a
+            return name, ("oor", rng.choice([[a, b, a], [a, a, b], [b, a, a]])), ("oor", [a, b]), a
+        if name == "o-absorb-and":
+            big = ("oand", [a, b] if rng.random() < 0.5 else [b, a])
+            return name, ("oor", [a, big] if rng.random() < 0.5 else [big, a]), a, a
+        if name == "o-absorb-fby-left":
+            big = ("ofby", [a, b])
+            return name, ("oor", [a, big] if rng.random() < 0.5 else [big, a]), a, a
+        if name == "o-absorb-fby-right":
+            big = ("ofby", [b, a])
+            return name, ("oor", [a, big] if rng.random() < 0.5 else [big, a]), a, a
+        if name == "o-distribute-and":
+            return name, ("oand", [a, ("oor", [b, c])]), ("oor", [("oand", [a, b]), ("oand", [a, c])]), a
+        if name == "o-distribute-fby-right":
+            return name, ("ofby", [a, ("oor", [b, c])]), ("oor", [("ofby", [a, b]), ("ofby", [a, c])]), a
+        return name, ("ofby", [("oor", [a, b]), c]), ("oor", [("ofby", [a, c]), ("ofby", [b, c])]), a
+
+    x = rng.random()
+    typ = rng.choice(TYPES) if x < 0.7 else rng.choice(["ipv4-addr", "ipv6-addr", "windows-registry-key"])
+
+    def csub():
+        for _ in range(30):
+            e = normalize_shape(g.cexpr(rng.choice([0, 0, 0, 1, 1, 2]), typ))
+            if size(e) <= 14 and dnf_cost(e)[0] <= 5:
+                return e
+        return g.atom(typ)
+
+    def obs(cx):
+        return ("obs", cx)
+
+    a, b, c = csub(), csub(), csub()
+    if name == "c-commute":
+        op = rng.choice(["and", "or"])
+        kids = [a, b, c][:rng.choice([2, 3])]
+        k2 = kids[:]
+        while k2 == kids:
+            rng.shuffle(k2)
+            if all(y == kids[0] for y in kids):
+                break
+        return name, obs((op, kids)), obs((op, k2)), a
+    if name == "c-associate":
+        op = rng.choice(["and", "or"])
+        forms = [(op, [a, (op, [b, c])]), (op, [(op, [a, b]), c]), (op, [a, b, c])]
+        l, r = rng.sample(forms, 2)
+        return name, obs(l), obs(r), a
+    if name == "c-idempotent":
+        op = rng.choice(["and", "or"])
+        if rng.random() < 0.5:
+            return name, obs((op, [a, a])), obs(a), a
+        return name, obs((op, rng.choice([[a, b, a], [a, a, b], [b, a, a]]))), obs((op, [a, b])), a
+    if name == "c-absorb-or":
+        big = ("and", [a, b] if rng.random() < 0.5 else [b, a])
+        return name, obs(("or", [a, big] if rng.random() < 0.5 else [big, a])), obs(a), a
+    if name == "c-absorb-and":
+        big = ("or", [a, b] if rng.random() < 0.5 else [b, a])
+        return name, obs(("and", [a, big] if rng.random() < 0.5 else [big, a])), obs(a), a
+    if name == "c-distribute":
+        return name, obs(("and", [a, ("or", [b, c])])), obs(("or", [("and", [a, b]), ("and", [a, c])])), a
+    if name == "set-order":
+        for _ in range(30):
+            t, steps, special = g.path(typ)
+            if special == "hash":
+                continue
+            k = g.setlit(special)
+            if len(k[1]) >= 2:
+                l2 = k[1][:]
+                rng.shuffle(l2)
+                neg = rng.random() < 0.2
+                return (name, obs(("atom", t, steps, "IN", neg, k)), obs(("atom", t, steps, "IN", neg, ("list", l2))), a)
+        return rule_instance(rng, "c-commute")
+    # numeric: the same number spelt differently (int / float / trailing zeros), alone or inside a set
+    for _ in range(30):
+        k = g.prim(["int", "float"])
+        n = respell_prim(rng, k)
+        if n[:2] != k[:2] and n[0] in ("int", "float"):
+            t, steps, special = g.path(rng.choice(TYPES))
+            if special == "hash":
+                continue
+            if rng.random() < 0.3:
+                other = g.prim(["int", "float", "str"])
+                return (name, obs(("atom", t, steps, "IN", False, ("list", [k, other]))),
+                        obs(("atom", t, steps, "IN", False, ("list", [n, other]))), a)
+            op = rng.choice(["=", "!=", "<", ">=", "<=", ">"])
+            return name, obs(("atom", t, steps, op, False, k)), obs(("atom", t, steps, op, False, n)), a
+    return rule_instance(rng, "c-commute")
+
+
 def normalize_shape(e):
     """make an abstract AST printable without changing its meaning: n-ary
     nodes keep >= 2 operands; qualifier chains directly on a leaf never
@@ -882,6 +1022,42 @@ def leaf_qualifier_clash(e):
 
 def size(e):
     return sum(1 for _ in positions(e))
+
+
+def dnf_cost(e):
+    """(number of disjuncts, width of the widest disjunct) of the DNF the
+    normaliser will build for e at its own level (an observation leaf counts
+    as one operand there)"""
+    t = e[0]
+    if t in ("or", "oor"):
+        cs = [dnf_cost(x) for x in e[1]]
+        return sum(c[0] for c in cs), max(c[1] for c in cs)
+    if t in ("and", "oand", "ofby"):
+        n, w = 1, 0
+        for x in e[1]:
+            c = dnf_cost(x)
+            n, w = n * c[0], w + c[1]
+        return n, w
+    if t == "qual":
+        return dnf_cost(e[1])
+    return 1, 1
+
+
+def too_costly(e, max_terms=24, max_work=160):
+    """True if normalising e would build a DNF with many terms at either level
+    (the normaliser is exponential there; the harness keeps cases cheap)"""
+    for _, x in positions(e):
+        if x[0] == "obs":
+            n, w = dnf_cost(x[1])
+            if n > max_terms or n * w > max_work:
+                return True
+    # qualifiers cut the observation-level DNF into separate problems
+    for _, x in positions(e):
+        if x[0] in ("oand", "oor", "ofby"):
+            n, w = dnf_cost(x)
+            if n > max_terms or n * w > max_work:
+                return True
+    return False
 
 
 def stats(e, acc):
